@@ -559,6 +559,10 @@ class Engine:
 
     def eq(self, a, b):
         """python == on interpreter values -> bool or z3 Bool."""
+        if isinstance(a, z3.BoolRef):
+            a = SV(TBool, a)
+        if isinstance(b, z3.BoolRef):
+            b = SV(TBool, b)
         if isinstance(a, Box):
             a = SV(a.ty, a.e)
         if isinstance(b, Box):
@@ -1096,7 +1100,12 @@ class Engine:
 
     def snapshot(self, v):
         if isinstance(v, Box):
-            b = Box(v.ty, v.e)
+            if v.ty is None:
+                b = Box(None, kind=v.kind)
+                if v.cd is not None:
+                    b.cd = {k: self.snapshot(x) for k, x in v.cd.items()}
+            else:
+                b = Box(v.ty, v.e)
             b.frozen = True
             return b
         if isinstance(v, Obj):
